@@ -117,6 +117,40 @@ theorem view_channel_gone {s : Srv} {b : Bot} (hc : Coupled s b) (k : Str)
     rw [h sc hs] at hbot; cases hbot
 
 
+
+/-! ### supybot.followIdentificationThroughNickChanges -/
+
+/-- **follow_switch_transparent** — with the switch on, `Irc.doNick` looks the sender of every foreign NICK up in
+the user database before `IrcState.addMsg` sees the message (an exception there would lose the NICK).  For every
+run as in `view_refines_batched_partial`, every setting of the switch and every user database (nobody registered,
+the renamed user identified, several users identified from the same hostmask) the bot proper goes through
+exactly the states it goes through without the switch — so `BInv` (server invariant, `Coupled`, batches) holds. -/
+theorem follow_switch_transparent (cfg : Cfg) (hv : cfg.valid = true) (follow : Bool) (db : List DbUser) (acts : List BAct)
+    (hok : ∀ a ∈ acts, a.ok) :
+    BInv (runF (Srv.init cfg) ⟨⟨Bot.init cfg.botNick cfg.botIdent, []⟩, follow, db⟩ none acts).1
+      (runF (Srv.init cfg) ⟨⟨Bot.init cfg.botNick cfg.botIdent, []⟩, follow, db⟩ none acts).2.1.bb
+      (runF (Srv.init cfg) ⟨⟨Bot.init cfg.botNick cfg.botIdent, []⟩, follow, db⟩ none acts).2.2 := by
+  have h0 : BInv (Srv.init cfg) (⟨⟨Bot.init cfg.botNick cfg.botIdent, []⟩, follow, db⟩ : FBot).bb none :=
+    ⟨wf_init cfg hv, coupled_init cfg hv, fun _ h => by cases h⟩
+  obtain ⟨e1, e2, e3, _⟩ := runF_eq_runB acts _ ⟨⟨Bot.init cfg.botNick cfg.botIdent, []⟩, follow, db⟩ none h0 hok
+  rw [e1, e2, e3]
+  exact runB_inv acts _ _ _ h0 hok
+
+/-- the branch itself: a NICK with a user's hostmask as prefix and a non-empty new nick never raises -/
+theorem follow_never_loses_nick (db : List DbUser) {u : SUser} (hu : UserOK u) {n' : Str} (hn : n' ≠ []) :
+    (followNick db ⟨u.mask, "NICK".toList, [n']⟩).2 = false :=
+  followNick_user db hu _ hn []
+
+/-- non-vacuity: the branch does something — the identification follows the renamed user (and only him) -/
+example :
+    followNick [⟨"acct0".toList, ["Bob!b@host.one".toList]⟩, ⟨"acct1".toList, ["carl!c@h2".toList]⟩]
+        ⟨"Bob!b@host.one".toList, "NICK".toList, ["Robert".toList]⟩ =
+      ([⟨"acct0".toList, ["Robert!b@host.one".toList]⟩, ⟨"acct1".toList, ["carl!c@h2".toList]⟩], false) ∧
+    followNick [⟨"acct0".toList, ["Bob!b@host.one".toList]⟩] ⟨"alice!a@ah".toList, "NICK".toList, ["alicia".toList]⟩ =
+      ([⟨"acct0".toList, ["Bob!b@host.one".toList]⟩], false) ∧
+    (followNick [⟨"acct0".toList, ["Bob!b@host.one".toList]⟩] ⟨"Bob!b@host.one".toList, "NICK".toList, []⟩).2 = true := by
+  decide +kernel
+
 /-! ### every query is answered or pending; at quiescence the view is exact -/
 
 /-- **queries_cover** — along every such run: each channel the bot is on has had its modes sent since the bot
